@@ -10,8 +10,37 @@
  */
 #pragma once
 
+/// Kinds of trace records (the meaning of the data words is documented in the harness)
+enum verif_trace_kind {
+	VT_STAGE = 1,    ///< a: life-cycle stage of the calling worker thread, b: thread GVT phase
+	VT_GVT,          ///< a: bits of the GVT value delivered to the consumers in the main loop
+	VT_GVT_DRAIN,    ///< a: bits of a GVT value completed inside the shutdown flush loop
+	VT_PROC,         ///< a: message, b: previous flag word, c: LP (after the fetch-add of process_msg)
+	VT_FORWARD,      ///< a: LP, b: message (forward execution, after the handler)
+	VT_ROLLBACK,     ///< a: LP, b: target index, c: index restored from the checkpoint, d: history length before
+	VT_ANTI,         ///< a: LP, b: message, c: previous flag word (0 for remote), d: 1 if remote
+	VT_UNDO,         ///< a: LP, b: message, c: previous flag word
+	VT_SILENT,       ///< a: LP, b: message (silent re-execution)
+	VT_CKPT,         ///< a: LP, b: history length
+	VT_COMMIT,       ///< a: LP, b: message released by fossil collection (still allocated)
+	VT_FOSSIL,       ///< a: LP, b: bits of the GVT used, c: entries released
+	VT_FINI_ENTRY,   ///< a: LP, b: message still in the history at shutdown
+	VT_TERM_VOTE,    ///< a: bits of the GVT, b: 1 if the thread votes to end
+	VT_MSG_ALLOC,    ///< a: message buffer handed out
+	VT_MSG_FREE,     ///< a: message buffer released
+	VT_STATS_GVT,    ///< a: bits of the GVT value recorded in the statistics
+	VT_EXTRACT,      ///< a: message extracted from the queue, b: bits of its timestamp
+};
+
 #ifdef ROOTSIM_VERIF
 #include <stdint.h>
+#include <string.h>
+static inline uint64_t verif_bits(double d)
+{
+	uint64_t b;
+	memcpy(&b, &d, sizeof(b));
+	return b;
+}
 /// Cooperative scheduling point: the harness may pause the calling thread here
 extern void verif_yield(int point);
 /// Trace record: kind plus up to four words of data
